@@ -555,6 +555,124 @@ func c08headers(c *Ctx, u *routeUnit, decl []c08hdr, mode string, ch, node *lab.
 				c08helperVerdict(c, caseID, h.Name, val, entered, sent, retErr, protoText)
 			}
 		}
+		if mode == "optional" {
+			c08sequence(c, u, decl, msfx, target.Name, target.S, target.Ch, ch, node, call)
+		}
+	}
+}
+
+// c08sequence: two calls on ONE client object. The first passes per-call headers (a typed helper
+// and a generic one), the second passes none: the second request must not carry them, and the
+// client-level default header must still have its constructor value.
+func c08sequence(c *Ctx, u *routeUnit, decl []c08hdr, msfx string, targetName string, target *srv, targetCh, ch, node *lab.Child, call map[string]string) {
+	pkg := u.File.Package
+	svcFull := pkg + ".HelperService"
+	var methodHdr, svcHdr *c08hdr
+	for i := range decl {
+		if decl[i].Level == "method" && methodHdr == nil {
+			methodHdr = &decl[i]
+		}
+		if decl[i].Level == "service" && svcHdr == nil {
+			svcHdr = &decl[i]
+		}
+	}
+	if methodHdr == nil || svcHdr == nil {
+		return
+	}
+	d, _ := u.Reg.FindDescriptorByName(protoreflect.FullName(pkg + ".HReq"))
+	md := d.(protoreflect.MessageDescriptor)
+	req := dynamicpb.NewMessage(md)
+	req.Set(md.Fields().ByName("id"), protoreflect.ValueOfString("x"))
+	headersOf := func(evs []lab.Event) map[string]string {
+		out := map[string]string{}
+		for _, e := range evs {
+			if e.Str("ev") == "wire" {
+				for k, v := range oas.M(e["headers"]) {
+					out[strings.ToLower(k)] = fmt.Sprint(v)
+				}
+			}
+		}
+		return out
+	}
+	for _, client := range []string{"go-client", "ts-client"} {
+		caseID := fmt.Sprintf("interop/helpers/%s/%s/sequence%s", targetName, client, msfx)
+		if !c.Want(caseID) {
+			continue
+		}
+		key := newID("seq")
+		var second map[string]string
+		var firstErr, secondErr any
+		if client == "go-client" {
+			first, err := callGo(ch, svcFull, target.URL, "Ping", pkg+".HReq", wire(req), map[string]any{"ct": "application/json", "reuse": key,
+				"chelpers": []map[string]string{{"K": svcHdr.Name, "V": "default-value"}},
+				"helpers":  []map[string]string{{"K": methodHdr.Name, "V": "first-call-only"}, {"K": svcHdr.Name, "V": "first-call-override"}},
+				"hdr":      []map[string]string{{"K": "X-Seq", "V": "first"}}})
+			c.R.Eval(1)
+			if err != nil {
+				c.R.Inconclusive(caseID, "call")
+				continue
+			}
+			firstErr = first.Ret["err"]
+			if targetCh != ch {
+				_, _ = syncEvents(targetCh)
+			}
+			out, err := callGo(ch, svcFull, target.URL, "Ping", pkg+".HReq", wire(req), map[string]any{"ct": "application/json", "reuse": key})
+			c.R.Eval(1)
+			if err != nil {
+				c.R.Inconclusive(caseID, "call")
+				continue
+			}
+			secondErr = out.Ret["err"]
+			if targetCh == ch {
+				second = headersOf(out.Events)
+			} else {
+				evs, _ := syncEvents(targetCh)
+				second = headersOf(evs)
+			}
+		} else {
+			opt, ok := call[methodHdr.Name]
+			if !ok || node == nil {
+				continue
+			}
+			copts := map[string]any{"defaultHeaders": map[string]string{svcHdr.Name: "default-value"}}
+			first, pre, err := callTSEv(node, u.TSClient, "HelperServiceClient", target.URL, "ping", map[string]any{"id": "x"}, map[string]any{"reuse": key, "copts": copts, "opts": map[string]any{opt: "first-call-only", "headers": map[string]string{"X-Seq": "first"}}})
+			c.R.Eval(1)
+			if err != nil {
+				c.R.Violate(caseID, "ts-client-unusable", err.Error(), map[string]any{"proto": u.File.Proto()})
+				continue
+			}
+			firstErr = first["err"]
+			_ = pre
+			if targetCh != node {
+				_, _ = syncEvents(targetCh)
+			}
+			ret, same, err := callTSEv(node, u.TSClient, "HelperServiceClient", target.URL, "ping", map[string]any{"id": "x"}, map[string]any{"reuse": key})
+			c.R.Eval(1)
+			if err != nil {
+				c.R.Violate(caseID, "ts-client-unusable", err.Error(), map[string]any{"proto": u.File.Proto()})
+				continue
+			}
+			secondErr = ret["err"]
+			if targetCh == node {
+				second = headersOf(same)
+			} else {
+				evs, _ := syncEvents(targetCh)
+				second = headersOf(evs)
+			}
+		}
+		rp := map[string]any{"proto": u.File.Proto(), "client": client, "server": targetName, "second_call_headers": second, "first_call_error": firstErr, "second_call_error": secondErr}
+		switch {
+		case len(second) == 0:
+			c.R.Inconclusive(caseID, "second-call-not-observed")
+			continue
+		case second[strings.ToLower(methodHdr.Name)] != "" && strings.Contains(second[strings.ToLower(methodHdr.Name)], "first-call-only"):
+			c.R.Violate(caseID, "per-call-header-sent-on-later-call", "typed helper", rp)
+		case strings.Contains(second["x-seq"], "first"):
+			c.R.Violate(caseID, "per-call-header-sent-on-later-call", "generic header", rp)
+		case client == "go-client" && !strings.Contains(second[strings.ToLower(svcHdr.Name)], "default-value"):
+			c.R.Violate(caseID, "client-default-header-changed-by-earlier-call", "", rp)
+		}
+		c.R.Decided(caseID)
 	}
 }
 
